@@ -1,10 +1,12 @@
 import RzmqModel.Driver.Wire
 import RzmqModel.Driver.Engine
 import RzmqModel.Driver.Stack
+import RzmqModel.Driver.Routing
 open Rzmq.Driver
 
 structure DState where
   eng : Engine.St := {}
+  rt : Routing.St := {}
 
 def dispatch (comp : String) (st : DState) (parts : List String) : DState × String :=
   if parts.head? == some "note" then (st, "note") else
@@ -12,6 +14,7 @@ def dispatch (comp : String) (st : DState) (parts : List String) : DState × Str
   | "stack" => (st, Stack.runOp parts)
   | "wire" => (st, Wire.runOp parts)
   | "engine" => let r := Engine.runOp st.eng parts; ({ st with eng := r.1 }, r.2)
+  | "routing" => let r := Routing.runOp st.rt parts; ({ st with rt := r.1 }, r.2)
   | _ => (st, "bad-component")
 
 partial def loop (comp : String) (h : IO.FS.Stream) (out : IO.FS.Stream) (st : DState) : IO Unit := do
